@@ -4,6 +4,7 @@
 import Driver.Util
 import RelicVerif.Model.Fp
 import RelicVerif.Model.FpAlg
+import RelicVerif.Model.FpAlgCrt
 
 namespace Driver.C02
 open Driver Relic.Model
@@ -160,14 +161,26 @@ def handle (e : Env) (op : String) (args : List String) (got : String) : Option 
     else if o == "crt" then
       -- a cube root is returned exactly when one exists (always when 3 ∤ p − 1; else iff a^((p−1)/3) = 1, or a = 0)
       let isCube : Bool := a == 0 || (p - 1) % 3 != 0 || powMod a ((p - 1) / 3) p == 1
-      if !isCube then cls "r=0"
+      if !isCube then
+        let m := match FpAlg.crtEasy e.alg a with
+          | some (some (true, x)) => "r=1 " ++ fmtVal e x
+          | some (some (false, _)) => "r=0"
+          | some none => "err"
+          | none => got
+        some { model := m, spec := ["r=0"], tags := ["crt:non-cube"] }
       else
         let okRoot : Bool := match (got.splitOn " ") with
           | ["r=1", v, _] => match parseHexNat v with
             | some r => decide (r < p) && decide (r * r % p * r % p = a) && got == "r=1 " ++ fmtVal e r
             | none => false
           | _ => false
-        some { model := got, spec := if okRoot then [got] else ["r=1 <a canonical cube root of the operand>"] }
+        -- class A on the one-exponentiation branches (Model/FpAlgCrt); the general branch (p ≡ 1 mod 9) stays class C
+        let (m, tg) := match FpAlg.crtEasy e.alg a with
+          | some (some (true, x)) => ("r=1 " ++ fmtVal e x, "crt:exp-branch-" ++ toString (p % 9))
+          | some (some (false, _)) => ("r=0", "crt:exp-branch-" ++ toString (p % 9))
+          | some none => ("err", "crt:err")
+          | none => (got, "crt:general-unmodelled")
+        some { model := m, spec := if okRoot then [got] else ["r=1 <a canonical cube root of the operand>"], tags := [tg] }
     else none
   | "fpe", [o, _, a, x] => do
     let a ← parseHexNat a
